@@ -41,7 +41,8 @@ CmdResult(c, cmd, t) ==
           IN [ms    |-> [j \in 1..Len(E.ms) |->
                            [s |-> E.ms[j].s, e |-> E.ms[j].e, n |-> E.ms[j].n, vars |-> E.ms[j].vars,
                             ls |-> E.ms[j].ls, le |-> E.ms[j].le, cs |-> E.ms[j].cs, ce |-> E.ms[j].ce,
-                            repl |-> R[j].s]],
+                            repl |-> R[j].s,
+                            hasr |-> HasReplacement(t, E.ms[j], Len(E.ms), FName, tt, cmd.with)]],
               firm  |-> E.firm,
               undef |-> \E j \in 1..Len(E.ms) : ~R[j].ok,
               noret |-> \E j \in 1..Len(E.ms) : R[j].noreturn,
